@@ -233,7 +233,8 @@ def _order(e):
         ll, lr = _linear(l), _linear(r)
         arith = isinstance(l, (ast.BinOp, ast.UnaryOp)) or isinstance(r, (ast.BinOp, ast.UnaryOp)) \
             or (isinstance(l, ast.Constant) and isinstance(l.value, int) and not isinstance(l.value, bool)) \
-            or (isinstance(r, ast.Constant) and isinstance(r.value, int) and not isinstance(r.value, bool))
+            or (isinstance(r, ast.Constant) and isinstance(r.value, int) and not isinstance(r.value, bool)) \
+            or _is_len(l) or _is_len(r)
         if ll is not None and lr is not None and (ordering or (equality and arith)):
             terms = dict(ll[0])
             for k, v in lr[0].items():
